@@ -63,6 +63,21 @@ type vStore struct {
 	CrashUpd  bool
 	S3        *fakes3.Client // crash state is shared with the S3 client of the same incarnation
 	NoPoints  bool
+	AllPoints bool // NextOffset and CreateTopic are scheduling points too (partition open / auto-create races)
+}
+
+func (s *vStore) NextOffset(ctx context.Context, topic string, partition int32) (int64, error) {
+	if s.AllPoints && !s.NoPoints {
+		sched.Env("store.NextOffset")
+	}
+	return s.Store.NextOffset(ctx, topic, partition)
+}
+
+func (s *vStore) CreateTopic(ctx context.Context, spec metadata.TopicSpec) (*protocol.MetadataTopic, error) {
+	if s.AllPoints && !s.NoPoints {
+		sched.Env("store.CreateTopic")
+	}
+	return s.Store.CreateTopic(ctx, spec)
 }
 
 func (s *vStore) UpdateOffsets(ctx context.Context, topic string, partition int32, lastOffset int64) error {
